@@ -1,0 +1,14 @@
+//go:build verif
+
+// Contracts for the verification machinery in /verif (comment-only; compiled only with -tags verif).
+
+package encoder
+
+// base64url (raw) decoding is a partial function of the string (assumed; bounded check in C08)
+//@ spec b64ok(s string) bool
+//@ spec b64dec(s string) bytes
+//@ func DecodeString
+//@   trusted
+//@   results out, err
+//@   ensures (err == nil) == b64ok(encodedContent)
+//@   ensures err == nil ==> out == b64dec(encodedContent)
